@@ -109,6 +109,9 @@ func (e *Env) RejectDiags(r *Res) []string {
 			if !strings.Contains(low, "fail") && !strings.Contains(low, "not found") {
 				continue
 			}
+			if strings.Contains(low, "declared but not found in symbol table") {
+				continue // an undefined GLOBAL is legal: it becomes an undefined external symbol
+			}
 		}
 		if isDiagLine(l) {
 			out = append(out, l)
